@@ -6,7 +6,7 @@ FUNCS = ['(*random.genericPRG).UintN', '(*random.genericPRG).Permutation', '(*ra
 
 def run(tier, seed):
     thorough = tier == 'thorough'
-    nmax = 7 if thorough else 5
+    nmax = 6 if thorough else 5      # (n = 7 is 5040 tapes per case: about 45 minutes for the tier, beyond its budget)
     reads = 4 if thorough else 3
     cases = [
         Case('UintN_contract', 'random', 'zzC15_UintN_contract', [reads]),
